@@ -207,6 +207,39 @@ def h15_redis_poller(S):
     S.check("fifo-not-overtaken", got == [f"m{i}" for i in range(n)], info=f"delivered {got}")
 
 
+def h15_redis_past_due(S):
+    """Redis: a job whose deferred_until is already over when it is enqueued is deliverable at once - and queues up behind the
+    messages that were waiting before it."""
+    from engine.vtime import PinnedClock
+    from fakes import redis as fr
+    from harness.common import SEC, T0
+    from repid.data._key import RoutingKey
+    import repid.data._parameters as P
+
+    n_older = S.pick("older_messages_waiting", 3) + 1
+    over_by = S.int("deferred_until_over_by_us", 1, 3600 * SEC)
+    clock = PinnedClock(T0)
+    got = []
+
+    async def main(loop):
+        br = fr.mk_broker(fr.FakeServer(clock=lambda: clock.time()))
+        for i in range(n_older):
+            await br.enqueue(RoutingKey(topic="job", queue="default", id_=f"m{i}"), "p", P.Parameters(timestamp=S.datetime_us(T0)))
+        late = P.Parameters(timestamp=S.datetime_us(T0 - over_by),
+                            delay=P.DelayProperties(delay_until=S.datetime_us(T0 - over_by), defer_by=None))
+        await br.enqueue(RoutingKey(topic="job", queue="default", id_="late"), "p", late)
+        cons = br.get_consumer("default", ["job"])
+        cons.POLLING_WAIT = 0
+        for _ in range(n_older + 1):
+            m = await cons.consume_or_none()
+            got.append(None if m is None else m[0].id_)
+
+    run_async(main, clock=clock)
+    S.cover("past-due-enqueued-last")
+    want = [f"m{i}" for i in range(n_older)] + ["late"]
+    S.check("fifo-not-overtaken", got == want, info=f"enqueued {want}, delivered {got}")
+
+
 def _mk(backend, **kw):
     def scen(S, **p):
         return h15(S, backend=backend, **{**kw, **p})
@@ -244,6 +277,10 @@ HARNESSES = [
                     "pause/unpause": "never, or after 1 or 2 deliveries"},
             functions=["connections/redis/consumer.py:_RedisConsumer.consume", "connections/redis/consumer.py:_RedisConsumer.backgroud_consume",
                        "connections/redis/consumer.py:_RedisConsumer.pause"], covers=["poller-order"], stubs=["fake Redis server with 1 ms latency"]),
+    Harness(name="H15-redis-past-due", scenario=h15_redis_past_due,
+            bounds={"older messages waiting": "1..3", "late job": "deferred_until over by any µs up to an hour when it is enqueued"},
+            functions=["connections/redis/utils.py:wait_timestamp", "connections/redis/message_broker.py:RedisMessageBroker.enqueue"],
+            covers=["past-due-enqueued-last"], stubs=["fake Redis server"]),
     Harness(name="H15-redis-same-id", scenario=h15_redis_same_id,
             bounds={"sequence": "X, 1-2 others, X again, 0-1 others; consumed without acknowledging in between"},
             functions=["connections/redis/consumer.py:_RedisConsumer.__get_message_name"], covers=["same-id-twice"], stubs=["fake Redis server"]),
